@@ -8,7 +8,7 @@ static int last_refused;      /* the outermost operation was refused (monitor st
 
 /* ---- non-pubsub sources: one register/deregister call per kind ---- */
 static const int SIGS[3] = { SIGUSR1, SIGUSR2, 34 /* SIGRTMIN */ };
-static const m_src_thresh_t THR[3] = { { 0, 1.0 }, { 5, 0 }, { 5, 1.0 } };
+static const m_src_thresh_t THR[5] = { { 5, 0.5 }, { 5, 0.25 }, { 0, 1.0 }, { 5, 0 }, { 5, 1.0 } };      /* the first two (the quick tier's key menu) differ in the fraction of the frequency only */
 static int task_fn(void *up) { (void)up; return 42; }
 static int src_call(m_mod_t *h, int kind, int key, int reg, int flags, const void *up) {
     m_src_flags fl = ((flags & 1) ? M_SRC_FD_AUTOCLOSE : 0) | ((flags & 2) ? M_SRC_ONESHOT : 0) | ((flags & 4) ? M_SRC_DUP : 0) | ((flags & 8) ? M_SRC_AUTOFREE : 0);
@@ -238,7 +238,7 @@ static void do_api(op_t op) {
             dereg_busy[s]--; mon_flush();
             if (!m_mod_is(oldh, M_MOD_ZOMBIE)) vfail("NM.replace", "NM.replace|not-zombie", "the replaced module is not a ZOMBIE after its replacement was registered");
             const char *onm = m_mod_name(oldh); if (!onm || strcmp(onm, MD[s].name)) vfail("ST.zombie", "ST.zombie|name", "replaced module lost its name");
-            int xb = MD[s].extra; set_zombie(s); MD[s].extra = xb;
+            int xb = MD[s].extra; replacing_now = 1; set_zombie(s); replacing_now = 0; MD[s].extra = xb;
             if (xb == 0) { m_mem_unref(oldh); MD[s].ptr = NULL; }        /* the harness drops its reference on the replaced module at once */
             else vfail("INTERNAL", "INTERNAL", "replace with extra references not generated");
         }
